@@ -47,9 +47,9 @@ CHECKS['C07'] = dict(
    note='Trusted: Coq kernel; hand model of Identifier/Block/Property/Formatter/Scope tied to the code by byte-exact correspondence on every generated case; harness/gens/sheet.py tree() as stand-in for the LALR parser (validated by the same comparison); harness/readcss.py; reference semantics Spec/Sem.v.' + ' Variables in feature values and media inside mixin bodies are covered by correspondence only.',
    design='3/C07')
 CHECKS['C11'] = dict(
-   technique='Coq facts about the regenerated 72-row fill table (complete finite option space) + shape checks of the real output under all 72 vectors + command line == library + model/spec correspondence',
-   text='Theorems C11_option_space_covered, C11_minify_shape, C11_default_shape, C11_fills_are_whitespace over the fill table that gen_params.py obtains by running the real Formatter on all 72 option vectors. Correspondence: every generated sheet under a random vector vs the byte-exact model and vs the reference semantics (identical items under every vector = whitespace-only differences); for a sample of sheets ALL 72 vectors: documented shape of the real output (indentation = unit x depth, one declaration per line; no newline/optional blank when minified; no newline at all with xminify); command-line flags vs library call.',
-   note='Trusted: Coq kernel; hand model of Identifier/Block/Property/Formatter/Scope tied to the code by byte-exact correspondence on every generated case; harness/gens/sheet.py tree() as stand-in for the LALR parser (validated by the same comparison); harness/readcss.py; reference semantics Spec/Sem.v.' + ' PARTIAL: no theorem yet that the printer output under two vectors is squeeze-equal for every object tree; decided by correspondence over the complete option space.',
+   technique='Coq proof on the formatter model that any two option vectors give outputs equal up to whitespace characters, for every object tree (induction over the printers), + facts about the regenerated 72-row fill table (complete finite option space) + shape checks of the real output under all 72 vectors + command line == library + model/spec correspondence',
+   text='Theorems C11_whitespace_only (for all option vectors o1, o2 and every evaluated program, erase(format o1) = erase(format o2), erase = remove every whitespace character; by induction over Property.fmt / Identifier.fmt / Block.fmt with the @media re-indentation / Formatter.format), C11_whitespace_only_any_fills, C11_option_space_covered, C11_minify_shape, C11_default_shape, C11_fills_are_whitespace over the fill table that gen_params.py obtains by running the real Formatter on all 72 option vectors. Correspondence: every generated sheet under a random vector vs the byte-exact model and vs the reference semantics (identical items under every vector = whitespace-only differences); for a sample of sheets ALL 72 vectors: documented shape of the real output (indentation = unit x depth, one declaration per line; no newline/optional blank when minified; no newline at all with xminify); command-line flags vs library call.',
+   note='Trusted: Coq kernel; hand model of Identifier/Block/Property/Formatter/Scope tied to the code by byte-exact correspondence on every generated case; harness/gens/sheet.py tree() as stand-in for the LALR parser (validated by the same comparison); harness/readcss.py; reference semantics Spec/Sem.v.' + ' PARTIAL: the whitespace-only theorem erases whitespace inside string literals too (that strings are verbatim is C18) and is about the formatter model; the parser and evaluator are option independent in the code (options only reach Formatter), which the correspondence over the complete option space confirms.',
    design='3/C11')
 CHECKS['C19'] = dict(
    technique='Coq lemmas (header kept, frames keep declarations in order, table fact keyframes at-words are sub-parse identifiers) + byte-exact model correspondence + reference-semantics comparison',
